@@ -12,6 +12,7 @@ ASSUMED (trusted): `_ReachabilityInstance._visit_block(block, ctx)` returns cc_b
 """
 from speclib import *
 from spec.c15 import *
+from spec.c15x import *
 
 
 class RI__visit_statement(Contract):
@@ -31,8 +32,8 @@ class RI__visit_statement(Contract):
     note = ('verified per statement class: records has_entry/has_exit, dispatches (ast/visitor.py) to the rule of the '
             'class and returns cc_stmt(stmt, entry) = the can-complete rule of spec/c15.py')
 
-    def post(self, stmt, ctx, result):
-        return {'cc': result == cc_stmt(stmt, ctx.is_reachable)}
+    def post(self, stmt, ctx, result, old):
+        return dict(rctx_frame(ctx, old.ctx), **{'cc': result == cc_stmt(stmt, ctx.is_reachable)})
 
     def raises(self, stmt, ctx):
         return {}
@@ -54,8 +55,8 @@ class RI__visit_block(Contract):
     def inv0(self, block, ctx, done, old):
         return {'cc': ctx.is_reachable == cc_prefix(block, done, old.ctx.is_reachable)}
 
-    def post(self, block, ctx, result):
-        return {'cc': result == cc_block(block, ctx.is_reachable)}
+    def post(self, block, ctx, result, old):
+        return dict(rctx_frame(ctx, old.ctx), **{'cc': result == cc_block(block, ctx.is_reachable)})
 
     def raises(self, block, ctx):
         return {}
@@ -67,8 +68,8 @@ class RI_simple(Contract):
     returns = 'bool'
     properties = ['C15']
 
-    def post(self, stmt, ctx, result):
-        return {'cc': result == ctx.is_reachable}
+    def post(self, stmt, ctx, result, old):
+        return dict(rctx_frame(ctx, old.ctx), **{'cc': result == ctx.is_reachable})
 
     def raises(self, stmt, ctx):
         return {}
@@ -80,8 +81,8 @@ class RI_indexed_assign(Contract):
     returns = 'bool'
     properties = ['C15']
 
-    def post(self, stmt, ctx, result):
-        return {'cc': result == ctx.is_reachable}
+    def post(self, stmt, ctx, result, old):
+        return dict(rctx_frame(ctx, old.ctx), **{'cc': result == ctx.is_reachable})
 
     def raises(self, stmt, ctx):
         return {}
@@ -93,8 +94,8 @@ class RI_assert(Contract):
     returns = 'bool'
     properties = ['C15']
 
-    def post(self, stmt, ctx, result):
-        return {'cc': result == ctx.is_reachable}
+    def post(self, stmt, ctx, result, old):
+        return dict(rctx_frame(ctx, old.ctx), **{'cc': result == ctx.is_reachable})
 
     def raises(self, stmt, ctx):
         return {}
@@ -106,8 +107,8 @@ class RI_effect(Contract):
     returns = 'bool'
     properties = ['C15']
 
-    def post(self, stmt, ctx, result):
-        return {'cc': result == ctx.is_reachable}
+    def post(self, stmt, ctx, result, old):
+        return dict(rctx_frame(ctx, old.ctx), **{'cc': result == ctx.is_reachable})
 
     def raises(self, stmt, ctx):
         return {}
@@ -119,8 +120,8 @@ class RI_pass(Contract):
     returns = 'bool'
     properties = ['C15']
 
-    def post(self, stmt, ctx, result):
-        return {'cc': result == ctx.is_reachable}
+    def post(self, stmt, ctx, result, old):
+        return dict(rctx_frame(ctx, old.ctx), **{'cc': result == ctx.is_reachable})
 
     def raises(self, stmt, ctx):
         return {}
@@ -134,10 +135,10 @@ class RI_return(Contract):
     modifies = ['self.ret_stmts']
 
     def post(self, stmt, ctx, result, old):
-        return {
+        return dict(rctx_frame(ctx, old.ctx), **{
             'cc': result == False,
             'recorded': forall_keys('ReturnStmt', lambda k: (k in self.ret_stmts) == ((k in old.self.ret_stmts) or k == stmt)),
-        }
+        })
 
     def raises(self, stmt, ctx):
         return {}
@@ -151,8 +152,8 @@ class RI_if1(Contract):
     properties = ['C15']
     modifies = ['self.has_entry', 'self.has_exit', 'self.ret_stmts']
 
-    def post(self, stmt, ctx, result):
-        return {'cc': result == (ctx.is_reachable or cc_block(stmt.body, ctx.is_reachable))}
+    def post(self, stmt, ctx, result, old):
+        return dict(rctx_frame(ctx, old.ctx), **{'cc': result == (ctx.is_reachable or cc_block(stmt.body, ctx.is_reachable))})
 
     def raises(self, stmt, ctx):
         return {}
@@ -166,8 +167,8 @@ class RI_while(Contract):
     properties = ['C15']
     modifies = ['self.has_entry', 'self.has_exit', 'self.ret_stmts']
 
-    def post(self, stmt, ctx, result):
-        return {'cc': result == (ctx.is_reachable or cc_block(stmt.body, ctx.is_reachable))}
+    def post(self, stmt, ctx, result, old):
+        return dict(rctx_frame(ctx, old.ctx), **{'cc': result == (ctx.is_reachable or cc_block(stmt.body, ctx.is_reachable))})
 
     def raises(self, stmt, ctx):
         return {}
@@ -182,8 +183,8 @@ class RI_for(Contract):
     properties = ['C15']
     modifies = ['self.has_entry', 'self.has_exit', 'self.ret_stmts']
 
-    def post(self, stmt, ctx, result):
-        return {'cc': result == (ctx.is_reachable or cc_block(stmt.body, ctx.is_reachable))}
+    def post(self, stmt, ctx, result, old):
+        return dict(rctx_frame(ctx, old.ctx), **{'cc': result == (ctx.is_reachable or cc_block(stmt.body, ctx.is_reachable))})
 
     def raises(self, stmt, ctx):
         return {}
@@ -197,8 +198,8 @@ class RI_if(Contract):
     properties = ['C15']
     modifies = ['self.has_entry', 'self.has_exit', 'self.ret_stmts']
 
-    def post(self, stmt, ctx, result):
-        return {'cc': result == (cc_block(stmt.ift, ctx.is_reachable) or cc_block(stmt.iff, ctx.is_reachable))}
+    def post(self, stmt, ctx, result, old):
+        return dict(rctx_frame(ctx, old.ctx), **{'cc': result == (cc_block(stmt.ift, ctx.is_reachable) or cc_block(stmt.iff, ctx.is_reachable))})
 
     def raises(self, stmt, ctx):
         return {}
@@ -212,8 +213,8 @@ class RI_context(Contract):
     properties = ['C15']
     modifies = ['self.has_entry', 'self.has_exit', 'self.ret_stmts']
 
-    def post(self, stmt, ctx, result):
-        return {'cc': result == cc_block(stmt.body, ctx.is_reachable)}
+    def post(self, stmt, ctx, result, old):
+        return dict(rctx_frame(ctx, old.ctx), **{'cc': result == cc_block(stmt.body, ctx.is_reachable)})
 
     def raises(self, stmt, ctx):
         return {}
